@@ -30,6 +30,7 @@ func extra(repo, out string, root, helpers *pkgFiles) {
 		if helpers != nil {
 			genPurity(out, root, helpers)
 			genLocks(out, root, helpers)
+			genEscapes(out, root, helpers)
 		}
 	}
 }
